@@ -888,3 +888,4 @@ func classify(c Case, cons []constraint, value interface{}, got, want bool, dev 
 
 func TestProp(t *testing.T)   { ev.Prop(t, false, gen, check) }
 func TestReplay(t *testing.T) { ev.Replay(t, check) }
+func FuzzC13(f *testing.F)    { ev.FuzzProp(f, false, gen, check) }
